@@ -282,6 +282,24 @@ type nativeResult struct {
 	Done   bool              `json:"done"`
 }
 
+// runNativeRobust replays natively; a run that does not behave as expected
+// (per ok) is retried twice with longer quiesce sleeps, because natively
+// "idle" can only be approximated by waiting.
+func runNativeRobust(bin, replay string, ok func(*nativeResult) bool) (*nativeResult, string, error) {
+	var nr *nativeResult
+	var out string
+	var err error
+	for _, ms := range []string{"60", "400", "1500"} {
+		os.Setenv("VX_QUIESCE_MS", ms)
+		nr, out, err = runNative(bin, replay)
+		if err == nil && ok(nr) {
+			break
+		}
+	}
+	os.Unsetenv("VX_QUIESCE_MS")
+	return nr, out, err
+}
+
 func runNative(bin string, replay string) (*nativeResult, string, error) {
 	outf := replay + ".native.json"
 	os.Remove(outf)
@@ -427,7 +445,9 @@ func cmdCheck(args []string) {
 			} else if b, err := getBin(); err != nil {
 				why = err.Error()
 			} else {
-				nr, out, err := runNative(b, path)
+				nr, out, err := runNativeRobust(b, path, func(nr *nativeResult) bool {
+					return (v.Kind == "violation" && contains(nr.Failed, v.Label)) || (v.Kind == "panic" && nr.Panic != "") || (v.Kind == "deadlock" && !nr.Done)
+				})
 				switch {
 				case err != nil:
 					why = err.Error() + "\n" + out
@@ -461,7 +481,9 @@ func cmdCheck(args []string) {
 					rf := s.ToReplay(prop, h.Fn, tier)
 					path := filepath.Join(tmpDir(&tmp), fmt.Sprintf("sample-%s-%d.json", h.Fn, n))
 					rf.Write(path)
-					nr, out, err := runNative(b, path)
+					nr, out, err := runNativeRobust(b, path, func(nr *nativeResult) bool {
+						return len(nr.Failed) == 0 && nr.Panic == "" && nr.Done && sameObs(s.Obs, nr.Obs) == ""
+					})
 					if err != nil {
 						r.ReplayMismatch = append(r.ReplayMismatch, err.Error()+" "+out)
 						continue
